@@ -550,7 +550,7 @@ fn gen_unit(rng: &mut Rng) -> (String, String, usize) {
 }
 
 /// hand-picked witnesses of the negative theorems, replayed on the real code
-fn witnesses() -> Vec<(String, String, usize)> {
+fn witnesses(thorough: bool) -> Vec<(String, String, usize)> {
     let mut v = vec![];
     let mut w = |line: String, tags: &str| {
         let n = line.split(' ').last().map(|h| h.len() / 2).unwrap_or(0);
@@ -565,7 +565,7 @@ fn witnesses() -> Vec<(String, String, usize)> {
     w(format!("C08 tmeta {}160019fcffffffff07", hex(FOOTER_HEAD)), "op:tmeta witness:thrift-rowgroup-capacity nt");
     // skip of a list<bool> with 2^31-1 elements in an unknown field (id 15): loop without consuming input
     // (six such fields: 48 bytes of input, 6 * 2^31 iterations)
-    w(format!("C08 tmeta {}1600190c{}00", hex(FOOTER_HEAD), "f9f1ffffffff07".repeat(6)), "op:tmeta witness:thrift-skip-bool-list nt");
+    w(format!("C08 tmeta {}1600190c{}00", hex(FOOTER_HEAD), "f9f1ffffffff07".repeat(if thorough { 24 } else { 6 })), "op:tmeta witness:thrift-skip-bool-list nt");
     // BitReader::get_vlq_int assert
     w("C08 bvlq ffffffffffffffffffffff".into(), "op:bvlq witness:bitreader-vlq-overlong nt");
     w("C08 delta ffffffffffffffffffffff01".into(), "op:delta witness:bitreader-vlq-overlong nt");
@@ -656,7 +656,7 @@ fn main() {
         }
     } else {
         let mut rng = Rng::new(args.seed ^ 0xC08);
-        for (line, tags, n) in witnesses() {
+        for (line, tags, n) in witnesses(args.tier == "thorough") {
             run_and_record(&mut w, &mut sink, line, &tags, n);
         }
         let n = n_cases(&args, 6000, 200000);
